@@ -416,5 +416,9 @@ class Size(Unit):
 
 
 def units(tier):
+    from . import c02
+    pb = c02.BufferContract()
+    # "bytes produced" are observed through PacketBuffer: the sink accepts every send and hands back exactly what was sent
+    pb.prop, pb.name = 'C03', 'C03.sink.PacketBuffer'
     return [ReadArbitrary(VarInt), ReadArbitrary(VarLong), SendCanonical(VarInt, 32), SendCanonical(VarLong, 64),
-            SendTerminates(), Size()]
+            SendTerminates(), Size(), pb]
